@@ -454,7 +454,7 @@ def main():
                 "(library_iff), application log = forwarded statements in order (app_calls_are_forwarded_in_order), client gets the last result "
                 "(client_gets_last), database = last selected (database_tracks_client)")
     chk.tie(["MimicProps.C13"])
-    chk.run_replays(["D13", "D13b"])
+    chk.run_replays(["D13", "D13b", "D13c"])
     rng = random.Random(chk.seed * 104729 + 13)
 
     async def go():
